@@ -168,6 +168,7 @@ func runLuaCase(c *lrCase) (o lrOut) {
 	}
 	if c.Helpers {
 		registerFlagsHelper(r)
+		registerResHelper(r, func(ev []interface{}) { o.Events = append(o.Events, ev) })
 	}
 	if c.Sandbox {
 		if sb, e := newSandbox(); e == nil {
